@@ -4,7 +4,8 @@
    complexes(). *)
 From Coq Require Import String ZArith Bool Arith List.
 From SV Require Import Names NamesFacts ListFacts Rep Fresh Complex Atomic RepInv Homology Filtration FiltProofs Shapes SnapProofs FiltClosed.
-From SV Require Closed ClosedReach FiltCinv.
+From SV Require Closed ClosedReach FiltCinv FiltBook.
+From Coq Require Sorted.
 Import ListNotations.
 
 (* the complex seen at index i consists of exactly the simplices of the filtration whose birth
@@ -63,3 +64,49 @@ Theorem C13_filtration_histories_are_closed :
   forall uid i0 ops, Closed.cinv (f_rep (fold_left fstep ops (new_filt uid i0))).
 Proof. exact FiltCinv.filtration_history_cinv. Qed.
 Print Assumptions C13_filtration_histories_are_closed.
+
+(* THE BOOKKEEPING.  After every history of public operations the two tables of the filtration
+   (simplex -> birth index, index -> simplices born there) say the same thing (FiltBook.binv) ... *)
+Theorem C13_bookkeeping_invariant :
+  forall uid i0 ops, FiltBook.binv (fold_left fstep ops (new_filt uid i0)).
+Proof. intros uid i0 ops. exact (proj2 (FiltBook.filtration_history_binv uid i0 ops)). Qed.
+Print Assumptions C13_bookkeeping_invariant.
+(* ... hence indices() is strictly ascending (so duplicate-free), contains the index the filtration
+   stands at and every birth index ... *)
+Theorem C13_indices_ascending_and_cover_births :
+  forall f, FiltBook.binv f ->
+  Sorted.StronglySorted Z.lt (f_indices f) /\ In (f_index f) (f_indices f) /\ forall s i, f_addedAtIndex f s = Ok i -> In i (f_indices f).
+Proof.
+  intros f H. split; [now apply FiltBook.indices_strictly_ascending|].
+  split; [now apply FiltBook.current_index_is_an_index|].
+  intros s i. now apply FiltBook.every_birth_is_an_index.
+Qed.
+Print Assumptions C13_indices_ascending_and_cover_births.
+(* ... simplicesAddedAtIndex(i) lists exactly the simplices whose addedAtIndex is i ... *)
+Theorem C13_simplicesAddedAtIndex_lists_the_births :
+  forall f i b l, minv f -> FiltBook.binv f -> f_simplicesAddedAtIndex f i b = Ok l ->
+  forall s, In s (map snd l) <-> f_addedAtIndex f s = Ok i.
+Proof. exact FiltBook.addedAt_lists_the_births. Qed.
+Print Assumptions C13_simplicesAddedAtIndex_lists_the_births.
+(* ... and a birth index is the index that was current when the simplex was added: the accepted
+   addSimplex records the current index for the new simplex and changes no other; moving the index
+   changes none; forceDeleteSimplex forgets only the simplex it removes. *)
+Theorem C13_born_at_the_current_index :
+  forall f fs id attr f' n, minv f -> FiltBook.binv f -> f_addSimplex f fs id attr = (f', Ok n) ->
+  f_addedAtIndex f' n = Ok (f_index f) /\ f_index f' = f_index f /\ forall s, s <> n -> f_addedAtIndex f' s = f_addedAtIndex f s.
+Proof. exact FiltBook.add_is_born_at_the_current_index. Qed.
+Print Assumptions C13_born_at_the_current_index.
+Theorem C13_births_survive_moves_and_other_deletions :
+  (forall f i s, f_addedAtIndex (f_setIndex f i) s = f_addedAtIndex f s) /\ (forall f s f' t, minv f -> f_forceDelete f s = (f', Ok tt) -> t <> s ->
+                    f_addedAtIndex f' t = f_addedAtIndex f t).
+Proof. split; [exact FiltBook.moving_keeps_births|exact FiltBook.forceDelete_keeps_other_births]. Qed.
+Print Assumptions C13_births_survive_moves_and_other_deletions.
+(* addSimplex never dies of a KeyError in its own tables *)
+Theorem C13_addSimplex_tables_never_fail :
+  forall f fs id attr f' x, minv f -> FiltBook.binv f -> f_addSimplex f fs id attr = (f', x) ->
+  x <> Raise KeyError \/ exists e, x = Raise e /\ f_appears f' = f_appears f.
+Proof.
+  intros f fs id attr f' x Hm Hb H.
+  destruct (FiltBook.addSimplex_binv f fs id attr f' x Hm Hb H) as [[_ K]|[_ K]]; [now left|now right].
+Qed.
+Print Assumptions C13_addSimplex_tables_never_fail.
